@@ -48,6 +48,8 @@ def glue_trigger(c):
     t = "%s,%s" % (c["style"], "+".join(ms))
     if c.get("prior", "none") != "none":
         t += ",after=" + c["prior"]
+    if c.get("retr", ["call"]) != ["call"]:
+        t += ",retr=%s%s" % ("+".join(c["retr"]), "@task" if c["outer"] else "@top")
     return t
 
 
@@ -128,7 +130,7 @@ def main():
         # ------------------------------------------------------------------ (a) gluing / format_asynq_stack
         gcases = []
         gstates = gtrans = 0
-        runs = [{"MAXD": "7" if quick else "8", "PRIORD": "4" if quick else "5"}]
+        runs = [{"MAXD": "7" if quick else "8", "PRIORD": "4" if quick else "5", "RETRD": "4" if quick else "6"}]
         if not quick:
             runs += [{"DEEP": "50"}, {"DEEP": "200"}]
         for env in runs:
@@ -159,6 +161,8 @@ def main():
         stats["glue"] = {"states": gstates, "transitions": gtrans, "chains": len(gcases),
                          "max_depth": max(c["d"] for c in gcases),
                          "chains_after_an_earlier_computation": sum(1 for c in gcases if c.get("prior", "none") != "none"),
+                         "chains_retrieved_several_times": sum(1 for c in gcases if c.get("retr", ["call"]) != ["call"]),
+                         "caught_retrievals": sum(len(c.get("sights", [])) for c in gcases),
                          "earlier_computation_kinds": sorted({c.get("prior", "none") for c in gcases}),
                          "chains_reaching_caller_with_error": sum(1 for c in gcases if c["outcome"][0] == "err"),
                          "stack_probes": sum(len(c["probes"]) for c in gcases), "mismatches": mis_a}
@@ -216,7 +220,7 @@ def main():
             "parts": stats, "builds": list(builds), "model_ok": not alarms,
             "model_invariants": {"Diag": ["OnlyCompleteRunsCollapsed", "EveryCompleteRunCollapsed", "KeptLinesInOrder", "LinesAccountedFor",
                                           "SomeOutput", "GreedyAdmissible", "UniqueUnlessOverlap", "NoRunNoChange"],
-                                 "DiagGlue": ["Glued", "GluedAtCaller", "StackIsCreatorChain", "OwnTasksOnly", "IdleBetweenComputations", "CaughtMeansValue", "EveryLevelProbed"],
+                                 "DiagGlue": ["Glued", "GluedAtCaller", "StackIsCreatorChain", "OwnTasksOnly", "IdleBetweenComputations", "RetrievalsGlued", "AllRetrieved", "CaughtMeansValue", "EveryLevelProbed"],
                                  "DiagLife": ["DiagnosticsTotal", "FormatErrorTotal", "StateDeclared", "all states reachable (ASSUME)"]},
             "evaluations": total,
             "distinct_nontrivial": stats["filter"]["texts_with_complete_runs"] + nglue_nontriv + len(visited) + len(fe),
